@@ -232,6 +232,28 @@ impl Spec {
     }
     pub fn image_builder_for(&self, target: Option<&fast_qr::QRCode>) -> ImageBuilder {
         let mut rng = Rng::new(oracle::rng::fnv(self.describe().as_bytes()) ^ 0x0bde);
+        // one builder in ten is handed out right after a rendering that FAILED on this thread and was survived, the
+        // way an application survives it (a colour string still wrapped in its JSON quotes makes the intermediate
+        // document unparsable; a drawing callback that panics): what the unwinding left behind - a lock, a half-filled
+        // buffer - may not reach the renderings that follow, on any thread
+        if rng.chance(1, 10) {
+            fn failing_shape(_y: usize, _x: usize, _m: fast_qr::Module) -> String {
+                panic!("drawing callback failed")
+            }
+            let blank = fast_qr::QRCode::default(21);
+            let _ = std::panic::catch_unwind(std::panic::AssertUnwindSafe(|| {
+                let mut pb = ImageBuilder::default();
+                if rng.chance(1, 2) {
+                    pb.module_color("\"#ffffff\"");
+                    pb.background_color("<");
+                } else {
+                    pb.shape(Shape::Command(failing_shape));
+                }
+                let mut dark = blank.clone();
+                dark.data[0].set(true);
+                pb.to_pixmap(&dark).width()
+            }));
+        }
         let mut b = ImageBuilder::default();
         let hist = self.noisy_history(&mut rng);
         let used = rng.below(6);
